@@ -192,6 +192,18 @@ func (e *Enc) enterLoop(f *frame, li *loopInfo, order []*ssa.BasicBlock) {
 	}
 	if wv["*"] {
 		e.havocAll("loop body")
+		// havocAll leaves ghost variables alone (no unknown callee can write
+		// them), but the body's own ghost updates are writes like any other
+		var gk []string
+		for k := range wv {
+			if strings.HasPrefix(k, "G|") {
+				gk = append(gk, k)
+			}
+		}
+		sort.Strings(gk)
+		for _, k := range gk {
+			e.cur.vars[k] = e.freshT("lp_"+lastPart(k), SBV64)
+		}
 	} else {
 		var keys []string
 		for k := range wv {
@@ -307,6 +319,7 @@ func (e *Enc) backEdge(f *frame, li *loopInfo, from *ssa.BasicBlock) {
 	for _, inv := range lc.Invariants {
 		n0 := len(e.obls)
 		e.oblige("loop", label+".preserve."+inv.Label+suffix, e.evalBool(env, inv), li.pos)
+		e.coverAntecedent(label+".cover.preserve."+inv.Label+suffix, env, inv)
 		if len(e.obls) > n0 {
 			e.obls[n0].Env = env
 			e.obls[n0].ClauseText = inv.Text
@@ -315,6 +328,7 @@ func (e *Enc) backEdge(f *frame, li *loopInfo, from *ssa.BasicBlock) {
 	for _, st := range lc.Steps {
 		n0 := len(e.obls)
 		e.oblige("loop", label+".step."+st.Label+suffix, e.evalBool(env, st), li.pos)
+		e.coverAntecedent(label+".cover.step."+st.Label+suffix, env, st)
 		if len(e.obls) > n0 {
 			e.obls[n0].Env = env
 			e.obls[n0].ClauseText = st.Text
